@@ -1655,17 +1655,41 @@ func llmnrClient() {
 		}
 		c2.Timeout = 100 * time.Millisecond
 		var w2 sync.WaitGroup
+		var emptyHanded atomic.Int64
 		for k := 0; k < t%3; k++ {
 			w2.Add(1)
 			go func(k int) {
 				defer w2.Done()
-				mon.Guard(func() { c2.Query(context.Background(), fmt.Sprintf("none-t%d-%d.example", t, k), llmnr.TypeA) })
+				var m *llmnr.Message
+				var qerr error
+				p, _, _ := mon.Guard(func() {
+					m, qerr = c2.Query(context.Background(), fmt.Sprintf("none-t%d-%d.example", t, k), llmnr.TypeA)
+				})
+				if !p && m == nil && qerr == nil {
+					emptyHanded.Add(1)
+				}
 			}(k)
 		}
-		runtime.Gosched()
+		// let the queries get as far as waiting for their responses (they register themselves in
+		// the client's table first); bounded, and not a verdict
+		for spin := 0; spin < 200; spin++ {
+			waiting := 0
+			c2.Queries.Range(func(_, _ any) bool { waiting++; return true })
+			if waiting >= t%3 {
+				break
+			}
+			time.Sleep(250 * time.Microsecond)
+		}
+		if t%2 == 1 {
+			time.Sleep(time.Duration(t%7) * time.Millisecond)
+		}
 		ok := within(progressLimit, func() { c2.Close() })
 		w2.Wait()
 		evals.Add(1)
+		if n := emptyHanded.Load(); n > 0 {
+			viol("llmnr.Client.Query:no-response-no-error", fmt.Sprintf("%d Query call(s) in flight when Close was called returned neither a response nor an error: nobody answered them", n), map[string]any{"trial": t, "queries_in_flight": t % 3})
+		}
+		count("llmnr_client_closes_with_queries_waiting", t%3)
 		if !ok {
 			viol("shutdown.llmnr.Client:close-hung", "Close did not return with queries in flight", map[string]any{"trial": t})
 			break
@@ -1823,6 +1847,11 @@ func child() {
 		nbSameID(kind)
 	}
 	nbRuntFrames()
+	for _, kind := range []string{"Server", "UDPServer", "TCPServer"} {
+		nbRequesterFlags(kind)
+		nbMultiQuestion(kind)
+	}
+	nbStreamSizes()
 	runs := pick(2, 12)
 	for _, kind := range []string{"Server", "UDPServer"} {
 		for _, nc := range []int{2, 4, 8, 16} {
